@@ -2,10 +2,21 @@ package recovery
 
 import (
 	"encoding/json"
+	"fmt"
 	"io"
 )
 
 func ListFiles(reader io.Reader) ([]string, error) {
+	return listFiles(reader, nil)
+}
+
+// ListFilesForCheckpoint lists the files referenced by the checkpoint with the
+// given ID. The checkpoints file may hold newer checkpoints as well.
+func ListFilesForCheckpoint(reader io.Reader, ckptID uint64) ([]string, error) {
+	return listFiles(reader, &ckptID)
+}
+
+func listFiles(reader io.Reader, ckptID *uint64) ([]string, error) {
 	// Decode reader data into checkpoint list JSON document
 	data, err := io.ReadAll(reader)
 	if err != nil {
@@ -17,8 +28,19 @@ func ListFiles(reader io.Reader) ([]string, error) {
 		return nil, err
 	}
 
-	// Always use the latest checkpoint
+	// Use the requested checkpoint, or the latest one
 	ckpt := listDoc.Checkpoints[len(listDoc.Checkpoints)-1]
+	if ckptID != nil {
+		found := false
+		for _, c := range listDoc.Checkpoints {
+			if c.ID == *ckptID {
+				ckpt, found = c, true
+			}
+		}
+		if !found {
+			return nil, fmt.Errorf("checkpoint %d not found in checkpoints file", *ckptID)
+		}
+	}
 
 	fileNames := []string{}
 
